@@ -549,11 +549,99 @@ func c04Scenario(r *Rand) *Workload {
 		{Name: "ThingAlias", T: &WType{K: "ref", Ref: "Thing"}},
 	}}
 	kind := Pick(r, []string{"envelope-on-scalar", "envelope-on-array", "unfold-twice", "compose-on-alias", "dataquery-not-a-struct", "dataquery-alias",
-		"template-loop:include", "template-loop:includeIfExists", "template-loop:template", "veneer-chain", "veneer-chain", "veneer-chain"})
+		"template-loop:include", "template-loop:includeIfExists", "template-loop:template", "veneer-chain", "veneer-chain", "veneer-chain",
+		"boundary-defaults", "boundary-defaults", "boundary-defaults", "incomplete-type", "incomplete-type", "incomplete-type"})
 	if forcedScenario != "" {
 		kind = forcedScenario
 	}
 	switch kind {
+	case "boundary-defaults":
+		// defaults written in a transformation file reach the jennies with whatever dynamic
+		// type yaml.v3 gave them: unsigned integers above MaxInt64, infinities, NaN, timestamps,
+		// binaries, nulls, nested collections - on a field of every kind (numeric and string
+		// enums by reference and inline, scalars, collections, references to structs)
+		pk := &WPackage{Name: "bnd", Objects: []WObject{
+			{Name: "Level", T: &WType{K: "enum", Enum: []any{1, 2, 3}}},
+			{Name: "Mode", T: &WType{K: "enum", Enum: []any{"auto", "manual"}}},
+			{Name: "Inner", T: &WType{K: "struct", Fields: []WField{{Name: "x", T: &WType{K: "int"}}}}},
+			{Name: "Thing", T: &WType{K: "struct", Fields: []WField{
+				{Name: "level", T: &WType{K: "ref", Ref: "Level"}},
+				{Name: "mode", T: &WType{K: "ref", Ref: "Mode"}},
+				{Name: "inlineLevel", T: &WType{K: "enum", Enum: []any{0, 10}}},
+				{Name: "count", T: &WType{K: "int"}},
+				{Name: "ratio", T: &WType{K: "float"}},
+				{Name: "title", T: str()},
+				{Name: "enabled", T: &WType{K: "bool"}},
+				{Name: "labels", T: &WType{K: "array", Elem: str()}},
+				{Name: "byName", T: &WType{K: "map", Elem: &WType{K: "int"}}},
+				{Name: "inner", T: &WType{K: "ref", Ref: "Inner"}},
+			}}},
+		}}
+		kindIn := Pick(r, []string{"jsonschema", "jsonschema", "openapi", "cue"})
+		switch kindIn {
+		case "openapi":
+			w.Files["in/bnd/schema.json"] = pk.RenderOpenAPI()
+		case "cue":
+			w.Files["in/bnd/schema.cue"] = pk.RenderCUE("bnd")
+		default:
+			w.Files["in/bnd/schema.json"] = pk.RenderJSONSchema()
+		}
+		path := "in/bnd/schema.json"
+		if kindIn == "cue" {
+			path = "in/bnd/schema.cue"
+		}
+		w.Inputs = []InputSpec{{Kind: kindIn, Path: path, Package: "bnd", Transformations: []string{"cfg/bnd_passes.yaml"}}}
+		vals := []string{"9223372036854775808", "18446744073709551615", "-9223372036854775808", "9223372036854775807", "1e400", ".inf", "-.inf", ".nan", "2001-12-14", "2001-12-14t21:59:43.10-05:00",
+			"!!binary aGVsbG8=", "~", "[]", "{}", "[[1, 2], {a: ~}]", "{1: one, true: yes}", "0x7fffffffffffffff", "0o17", "-0.0", "1_000", "\"\"", "'multi\n  line'", "!!str 3", "!!float 3", "4294967296", "3", "manual", "[auto]"}
+		var y strings.Builder
+		y.WriteString("passes:\n  - fields_set_default:\n      defaults:\n")
+		for _, f := range []string{"level", "mode", "inlineLevel", "count", "ratio", "title", "enabled", "labels", "byName", "inner"} {
+			if r.Chance(2, 3) {
+				fmt.Fprintf(&y, "        bnd.Thing.%s: %s\n", f, Pick(r, vals))
+			}
+		}
+		if r.Chance(1, 3) {
+			// the same kind of value as the default of a hand-written field
+			fmt.Fprintf(&y, "  - add_fields:\n      to: bnd.Thing\n      fields:\n        - name: extra\n          type:\n            kind: ref\n            ref: {referred_pkg: bnd, referred_type: %s}\n            default: %s\n", Pick(r, []string{"Level", "Mode", "Inner"}), Pick(r, vals))
+		}
+		w.Files["cfg/bnd_passes.yaml"] = y.String()
+		w.Converters = r.Bool()
+		w.Languages = GenLanguages(r, 1, 4)
+	case "incomplete-type":
+		// a hand-written type (add_object, add_fields, retype_field) in which one entry of one
+		// type definition is missing: `kind: scalar` without its `scalar:` block, a map without
+		// value type, an enum member without type... at any depth. The loader either rejects
+		// the file or every reader of the type copes.
+		w.Files["in/scn/schema.json"] = thing.RenderJSONSchema()
+		w.Inputs = []InputSpec{{Kind: "jsonschema", Path: "in/scn/schema.json", Package: "scn", Transformations: []string{"cfg/scn_passes.yaml"}}}
+		view := &IRView{Pkgs: []PkgView{{Name: "scn", Objects: []ObjView{{Name: "Thing", Kind: ast.KindStruct, Fields: []FieldView{{Name: "title", Kind: ast.KindScalar}, {Name: "labels", Kind: ast.KindArray}}}, {Name: "Inner", Kind: ast.KindStruct, Fields: []FieldView{{Name: "x", Kind: ast.KindScalar}}}}}}}
+		var ts *TypeSpec
+		for try := 0; try < 6; try++ {
+			ts = genTypeSpec(r, view, 0)
+			if ts.K == "map" || ts.K == "array" || ts.K == "struct" || ts.K == "enum" {
+				break
+			}
+		}
+		if r.Chance(1, 2) {
+			ts = &TypeSpec{K: Pick(r, []string{"array", "map"}), Elem: ts}
+		}
+		var ps PassSpec
+		switch r.Intn(3) {
+		case 0:
+			ps = PassSpec{Kind: "add_object", Obj: "scn.Written", Type: ts}
+		case 1:
+			ps = PassSpec{Kind: "add_fields", Obj: "scn.Thing", NewFields: []FieldSpec{{Name: "written", T: ts, Required: r.Bool()}}}
+		default:
+			ps = PassSpec{Kind: "retype_field", Fields: []string{"scn.Thing.title"}, Type: ts}
+		}
+		doc := PassesFileYAML([]PassSpec{ps})
+		note := "untouched"
+		for i, n := 0, 1+r.Intn(2); i < n; i++ {
+			doc, note = dropTypeEntry(r, doc)
+		}
+		_ = note
+		w.Files["cfg/scn_passes.yaml"] = doc
+		w.Languages = GenLanguages(r, 1, 4)
 	case "veneer-chain":
 		// two to four option rules aimed at one option of a struct that has a field of every
 		// shape: each rule meets what the previous one made of the option (arity, argument
@@ -776,6 +864,13 @@ func init() {
 					forcedScenario = ctx.Opt["scenario"] // debugging aid: -opt scenario=<kind>
 					w = c04Scenario(sr)
 				}
+				if sr := r.Side("scenario-values"); sr.Chance(1, 16) && ctx.Opt["scenario"] == "" {
+					// the two scenarios about what a configuration file can carry (values of odd
+					// dynamic types, incomplete hand-written types) have many variants each
+					forcedScenario = Pick(sr, []string{"boundary-defaults", "incomplete-type", "incomplete-type"})
+					w = c04Scenario(sr)
+					forcedScenario = ""
+				}
 				if sr := r.Side("input-condition"); sr.Chance(1, 6) && len(w.Inputs) > 0 {
 					// `if:` conditions: boolean, skipping, statically and dynamically non-boolean,
 					// unparsable, using the two helper functions, failing at run time
@@ -785,6 +880,15 @@ func init() {
 				if mode == "http" {
 					if !toURLInputs(w) {
 						p.Mode = "pipeline"
+					}
+				}
+				if d := ctx.Opt["dumpdir"]; d != "" {
+					// debugging aid: the configuration files of the case, before anything runs
+					for rel, body := range w.Files {
+						if strings.HasPrefix(rel, "cfg/") {
+							_ = os.MkdirAll(filepath.Join(d, fmt.Sprint(idx), filepath.Dir(rel)), 0o755)
+							_ = os.WriteFile(filepath.Join(d, fmt.Sprint(idx), rel), []byte(body), 0o644)
+						}
 					}
 				}
 				// dry, fault-free run: which calls exist, does it work at all
